@@ -1,7 +1,7 @@
 """C01: decrypt(encrypt(P)) == P for every length, mode, hash, key, seed and thread count."""
 from props.filegen import *
 
-THEOREMS = ["C01_roundtrip", "C01_roundtrip_any_schedule"]
+THEOREMS = ["C01_roundtrip"]
 
 
 def run(ck, module="Properties_C01", theorems=THEOREMS, finish=True):
